@@ -64,6 +64,7 @@ type Profile struct {
 	PostN    int
 	Stride   []int
 	Thorough bool
+	GCBias   bool // favour plain-API workloads on hot/cold value-log buckets (GC on recovered images)
 }
 
 // Gen draws a case.
@@ -79,7 +80,10 @@ func Gen(t *rapid.T, p Profile) Case {
 	default:
 		c.Cfg.SyncWrites = rapid.Bool().Draw(t, "sync")
 	}
-	if rapid.IntRange(0, 2).Draw(t, "vlogHeavy") == 0 {
+	if p.GCBias && rapid.IntRange(0, 2).Draw(t, "gcbias") > 0 {
+		c.Mode = "plain"
+	}
+	if rapid.IntRange(0, 2).Draw(t, "vlogHeavy") == 0 || (p.GCBias && c.Mode == "plain") {
 		// value-log heavy flavour: several buckets, small files (frequent rotation inside a
 		// batch), optional hot/cold routing
 		c.Cfg.ValueThreshold = 32
